@@ -34,6 +34,10 @@ struct FutState {
     completed: AtomicBool,
     /// completed before the harness's final poll
     completed_before_finale: AtomicBool,
+    /// a wake was issued after the ready flag had been set
+    woken_when_ready: AtomicBool,
+    /// schedules: one clone of the captured waker per waker task (handed over with modelled HB)
+    task_wakers: Mutex<Vec<Option<Waker>>>,
 }
 
 #[derive(Default)]
@@ -44,6 +48,8 @@ struct World {
     outputs_created: AtomicU32,
     outputs_dropped: AtomicU32,
     clock: AtomicU64,
+    /// number of waker tasks (0 in the history section)
+    nwakers: AtomicU32,
 }
 
 impl World {
@@ -83,9 +89,28 @@ impl Future for Scripted {
             })
         } else {
             // never hold the harness lock across a clone/drop of a waker: those are scheduling points
-            let fresh = Arc::new(cx.waker().clone());
-            let old = self.st.waker.lock().unwrap().replace(fresh);
-            drop(old);
+            let nw = self.world.nwakers.load(Ordering::SeqCst) as usize;
+            if nw == 0 {
+                let fresh = Arc::new(cx.waker().clone());
+                let old = self.st.waker.lock().unwrap().replace(fresh);
+                drop(old);
+            }
+            // schedules: hand one clone to every waker task (the hand-over is an external
+            // synchronisation, e.g. a channel, and is modelled as such)
+            for t in 0..nw {
+                let key = (self.id as usize) * 8 + t + 1;
+                let fresh = cx.waker().clone();
+                let old = {
+                    let mut g = self.st.task_wakers.lock().unwrap();
+                    if g.len() < nw {
+                        g.resize_with(nw, || None);
+                    }
+                    g[t].replace(fresh)
+                };
+                vsched::hb_recv(key);
+                drop(old);
+                vsched::hb_send(key);
+            }
             Poll::Pending
         }
     }
@@ -459,6 +484,8 @@ enum WOp {
     /// complete future f and wake it
     CompleteWake { f: u8 },
     Wake { f: u8, how: u8 },
+    /// take the waker the future captured out of the future's state and drop it on this task
+    DropCaptured { f: u8 },
     Yield,
 }
 
@@ -476,6 +503,7 @@ fn scase_strategy() -> impl Strategy<Value = SCase> {
     let wop = prop_oneof![
         4 => (0u8..3).prop_map(|f| WOp::CompleteWake { f }),
         4 => (0u8..3, 0u8..4).prop_map(|(f, how)| WOp::Wake { f, how }),
+        3 => (0u8..3).prop_map(|f| WOp::DropCaptured { f }),
         1 => Just(WOp::Yield),
     ];
     let sched_byte = prop_oneof![5 => Just(0u8), 3 => 128u8..=255, 1 => 1u8..128];
@@ -518,12 +546,13 @@ fn run_schedule(case: &SCase, ctx: &mut Ctx) -> Verdict {
             move || {
                 // setup on the harness thread: build the deque and poll it once so that every
                 // future has captured a waker
+                world1.nwakers.store(case1.wakers.len() as u32, Ordering::SeqCst);
                 let mut dq = FutureDeque::<Out>::new();
                 for _ in 0..case1.futures {
                     let (_, f) = new_future(&world1);
                     dq.push_back(f);
                 }
-                let wk = waker(0, &ledger1, true, None);
+                let wk = waker(0, &ledger1, false, None);
                 let _ = dq.poll(&Context::from_waker(&wk));
                 drop(wk);
                 *owner_last1.lock().unwrap() = Some((world1.stamp(), 0));
@@ -540,7 +569,7 @@ fn run_schedule(case: &SCase, ctx: &mut Ctx) -> Verdict {
                         let mut popped = Vec::new();
                         for i in 0..case.owner_polls {
                             let parent = 1 + (i % 2);
-                            let wk = waker(usize::from(parent), &ledger, true, None);
+                            let wk = waker(usize::from(parent), &ledger, false, None);
                             let _ = dq.poll(&Context::from_waker(&wk));
                             drop(wk);
                             *owner_last.lock().unwrap() = Some((world.stamp(), parent));
@@ -556,7 +585,7 @@ fn run_schedule(case: &SCase, ctx: &mut Ctx) -> Verdict {
                         }
                     }));
                 }
-                for script in &case1.wakers {
+                for (wi, script) in case1.wakers.iter().enumerate() {
                     let world = Arc::clone(&world1);
                     let wake_starts = Arc::clone(&wake_starts1);
                     let script = script.clone();
@@ -565,34 +594,69 @@ fn run_schedule(case: &SCase, ctx: &mut Ctx) -> Verdict {
                         for op in &script {
                             match *op {
                                 WOp::Yield => vsched::yield_point(),
+                                WOp::DropCaptured { f } => {
+                                    let id = usize::from(f) % nf;
+                                    let st = Arc::clone(&world.futs.lock().unwrap()[id]);
+                                    let key = id * 8 + wi + 1;
+                                    let taken = st.task_wakers.lock().unwrap().get_mut(wi).and_then(Option::take);
+                                    vsched::hb_recv(key);
+                                    drop(taken);
+                                }
                                 WOp::CompleteWake { f } | WOp::Wake { f, .. } => {
                                     let id = usize::from(f) % nf;
                                     let st = Arc::clone(&world.futs.lock().unwrap()[id]);
+                                    let key = id * 8 + wi + 1;
                                     let how = match *op {
                                         WOp::CompleteWake { .. } => {
                                             st.ready.store(true, Ordering::SeqCst);
                                             1
                                         }
                                         WOp::Wake { how, .. } => how % 4,
-                                        WOp::Yield => unreachable!(),
+                                        WOp::Yield | WOp::DropCaptured { .. } => unreachable!(),
                                     };
-                                    let captured = st.waker.lock().unwrap().clone();
-                                    let Some(w) = captured else { continue };
+                                    let taken = st.task_wakers.lock().unwrap().get_mut(wi).and_then(Option::take);
+                                    let Some(w) = taken else { continue };
+                                    vsched::hb_recv(key);
                                     if how != 3 {
                                         wake_starts.lock().unwrap().push((world.stamp(), f));
-                                    }
-                                    match how {
-                                        0 => (*w).clone().wake(),
-                                        1 => w.wake_by_ref(),
-                                        2 => {
-                                            let c = (*w).clone();
-                                            let c2 = c.clone();
-                                            drop(c);
-                                            c2.wake();
+                                        if st.ready.load(Ordering::SeqCst) {
+                                            st.woken_when_ready.store(true, Ordering::SeqCst);
                                         }
-                                        _ => drop((*w).clone()),
                                     }
-                                    drop(w);
+                                    let back = match how {
+                                        0 => {
+                                            w.wake();
+                                            None
+                                        }
+                                        1 => {
+                                            w.wake_by_ref();
+                                            Some(w)
+                                        }
+                                        2 => {
+                                            let c = w.clone();
+                                            c.wake();
+                                            Some(w)
+                                        }
+                                        _ => {
+                                            drop(w);
+                                            None
+                                        }
+                                    };
+                                    if let Some(w) = back {
+                                        // put the clone back unless the owner handed over a newer one
+                                        vsched::hb_send(key);
+                                        let stale = {
+                                            let mut g = st.task_wakers.lock().unwrap();
+                                            match g.get_mut(wi) {
+                                                Some(slot) if slot.is_none() => {
+                                                    *slot = Some(w);
+                                                    None
+                                                }
+                                                _ => Some(w),
+                                            }
+                                        };
+                                        drop(stale);
+                                    }
                                 }
                             }
                         }
@@ -608,7 +672,7 @@ fn run_schedule(case: &SCase, ctx: &mut Ctx) -> Verdict {
                     st.completed_before_finale.store(st.completed.load(Ordering::SeqCst), Ordering::SeqCst);
                 }
                 if let Some(mut dq) = deque_f.lock().unwrap().take() {
-                    let wk = waker(3, &ledger_f, true, None);
+                    let wk = waker(3, &ledger_f, false, None);
                     let _ = dq.poll(&Context::from_waker(&wk));
                     drop(wk);
                     let futs = world_f.futs.lock().unwrap().clone();
@@ -621,7 +685,7 @@ fn run_schedule(case: &SCase, ctx: &mut Ctx) -> Verdict {
                     // completion; the ones at the front are poppable
                     let mut expect = Vec::new();
                     for (id, st) in futs.iter().enumerate() {
-                        let woken_ready = st.ready.load(Ordering::SeqCst);
+                        let woken_ready = st.ready.load(Ordering::SeqCst) && st.woken_when_ready.load(Ordering::SeqCst);
                         if woken_ready {
                             expect.push(id as u32);
                         } else {
@@ -639,6 +703,8 @@ fn run_schedule(case: &SCase, ctx: &mut Ctx) -> Verdict {
                 for st in &futs {
                     let w = st.waker.lock().unwrap().take();
                     drop(w);
+                    let ws: Vec<Option<Waker>> = std::mem::take(&mut *st.task_wakers.lock().unwrap());
+                    drop(ws);
                 }
                 *final1.lock().unwrap() = msg;
             },
@@ -687,6 +753,9 @@ fn run_schedule(case: &SCase, ctx: &mut Ctx) -> Verdict {
             }
         }
     }
+    if out.releases.iter().any(|r| r.task < 1 + case.wakers.len()) {
+        ctx.classify("metadata-freed-by-a-task");
+    }
     for r in &out.releases {
         if !r.unordered_with.is_empty() {
             return Err(fl("meta/freed-without-happens-before", format!("task {} dropped a waker metadata reference count to zero although accesses of task(s) {:?} to it do not happen-before that", r.task, r.unordered_with)));
@@ -732,7 +801,7 @@ fn main() {
     let cases = h.cases(100_000, 8_000_000);
     h.section(
         "schedules",
-        "owner task (polls with alternating parent wakers, pops, then drops or keeps the deque) and 1..2 waker tasks (complete+wake, wake, wake_by_ref, clone+wake, drop of captured wakers) under generated schedule bytes; every atomic / mutex operation of future_deque is a scheduling point. Oracle: after a final poll every completed-and-woken future at the front is poppable (no lost wake-up), a wake that started after the owner's last poll invoked that poll's parent waker, the metadata reference count reaches zero only after every other task's accesses happen-before it and is never touched afterwards, futures/outputs dropped exactly once, parent waker clones consumed exactly once with HB-ordered hand-off. non-trivial = execution with >= 1 pre-emption; distinct by serialised case",
+        "owner task (polls with alternating parent wakers, pops, then drops or keeps the deque) and 1..2 waker tasks (complete+wake, wake, wake_by_ref, clone+wake, drop of captured wakers) under generated schedule bytes; every atomic / mutex operation of future_deque is a scheduling point. Oracle: after a final poll every completed-and-woken future at the front is poppable (no lost wake-up), a wake that started after the owner's last poll invoked that poll's parent waker, the metadata reference count reaches zero only after every other task's accesses happen-before it and is never touched afterwards, futures/outputs dropped exactly once, parent waker clones consumed exactly once. non-trivial = execution with >= 1 pre-emption; distinct by serialised case",
         cases,
         scase_strategy(),
         run_schedule,
